@@ -1,0 +1,69 @@
+//go:build verif
+
+package bttest
+
+import (
+	"sort"
+	"sync/atomic"
+	"time"
+
+	btapb "cloud.google.com/go/bigtable/admin/apiv2/adminpb"
+	btpb "cloud.google.com/go/bigtable/apiv2/bigtablepb"
+)
+
+// This file is only compiled with the "verif" build tag. It gives external
+// verification harnesses direct access to the service implementation, a way to
+// run a garbage-collection pass on demand, and named yield / crash points.
+
+// VerifAPI is everything the emulator serves over gRPC.
+type VerifAPI interface {
+	btpb.BigtableServer
+	btapb.BigtableTableAdminServer
+	btapb.BigtableInstanceAdminServer
+}
+
+// VerifServices returns the object that is registered with the gRPC server.
+func VerifServices(s *Server) VerifAPI { return s.s }
+
+// VerifYield, when set, is called at every named point (see verifYield call sites).
+var VerifYield func(point string)
+
+func verifYield(point string) {
+	if f := VerifYield; f != nil {
+		f(point)
+	}
+}
+
+// VerifGC runs one garbage-collection pass over every table (in name order)
+// with the server's own clock, exactly as gcloop does.
+func VerifGC(s *Server, force bool) {
+	s.s.mu.Lock()
+	names := make([]string, 0, len(s.s.tables))
+	for name := range s.s.tables {
+		names = append(names, name)
+	}
+	sort.Strings(names)
+	tbls := make([]*table, 0, len(names))
+	for _, name := range names {
+		tbls = append(tbls, s.s.tables[name])
+	}
+	s.s.mu.Unlock()
+	for _, tbl := range tbls {
+		tbl.gc(s.s.clock(), s.s.done, force)
+	}
+}
+
+// VerifAgeActivity moves the last-read / last-write stamps of every table back
+// by d, so that the quiescence rule of a non-forced pass can be exercised.
+func VerifAgeActivity(s *Server, d time.Duration) {
+	s.s.mu.Lock()
+	defer s.s.mu.Unlock()
+	for _, tbl := range s.s.tables {
+		if v := atomic.LoadInt64(&tbl.lastReadNanos); v != 0 {
+			atomic.StoreInt64(&tbl.lastReadNanos, v-int64(d))
+		}
+		if v := atomic.LoadInt64(&tbl.lastWriteNanos); v != 0 {
+			atomic.StoreInt64(&tbl.lastWriteNanos, v-int64(d))
+		}
+	}
+}
